@@ -22,6 +22,38 @@ CHECKS = {
     ),
 }
 
+_LOAD_NOTE = ("trusts: spec/PyAxioms.tla (CPython constructor facts, regenerated from CPython each run); gamma/alpha in vf/gamma.py; "
+              "token classes chosen so documented rules are constant on them; bounded type depth/width; TLC/SANY")
+_LOAD_TECH = ("TLA+ spec Load.tla (documented loader relation Acc/Errs/Undef) model-checked by TLC through MC_Load.tla; every "
+              "TLC-enumerated (type, datum) case replayed on the real Retort in all 6 modes")
+CHECKS.update({
+    "C02": dict(technique=_LOAD_TECH, category="model_checking", design_ref="6/C02", note=_LOAD_NOTE,
+                text="The documented per-type rules are an explicit TLA+ relation; TLC checks the rule set is total and consistent and "
+                     "enumerates every (type, datum) pair of the bounded universe with the set of documented results; the real loaders "
+                     "must return one of them (typed equality) or reject exactly when the relation rejects, in all 6 modes. "
+                     "Exhaustive over token classes x type depth 2, sampled inside a class (k representatives)."),
+    "C04": dict(technique=_LOAD_TECH + "; any exception that is not a LoadError tree is a violation", category="model_checking",
+                design_ref="6/C04", note=_LOAD_NOTE,
+                text="The model's outcome alphabet is {accepted, LoadError tree}; every enumerated case (incl. the hostile token classes "
+                     "huge ints, nan/inf, non-ascii/malformed strings, unhashable values, wrong containers, non-string-keyed mappings) is "
+                     "run on the real loaders in 6 modes and any foreign exception class is reported with its call site."),
+    "C05": dict(technique=_LOAD_TECH + "; Errs (complete set of trails) compared with the flattened real error tree", category="model_checking",
+                design_ref="6/C05", note=_LOAD_NOTE,
+                text="Errs(T,d,s) is the documented complete set of invalid positions; under ALL the real error tree, flattened with "
+                     "trails concatenated and translated back to abstract positions by walking the datum, must equal it exactly (no "
+                     "duplicates), under FIRST be one member, under DISABLE carry no trail."),
+    "C06": dict(technique=_LOAD_TECH + "; the three debug_trail programs compared pairwise on every case", category="model_checking",
+                design_ref="6/C06", note=_LOAD_NOTE,
+                text="The model's verdict does not take debug_trail as a parameter; every enumerated case is run on the three "
+                     "independently generated programs (DISABLE/FIRST/ALL) for both coercion modes: same acceptance, typed-equal "
+                     "results, and the single error (class, input value) must be among those collected under ALL."),
+    "C07": dict(technique=_LOAD_TECH + "; TLC invariants StrictNarrows/StrictOrigins on the documented rules, strict vs lax compared on every case",
+                category="model_checking", design_ref="6/C07", note=_LOAD_NOTE,
+                text="TLC proves on the documented rule set that strict acceptance is a subset of lax acceptance (equal results unless a "
+                     "union is involved) and that strict acceptance implies an allowed strict origin; the same is then checked between the "
+                     "real strict and lax loaders (lax obtained both directly and through replace()) on every enumerated case."),
+})
+
 NOT_YET = {}
 
 
